@@ -78,6 +78,8 @@ def main():
         c.violation("eigen-system of %s (sites %s, build %s, partition %s) violates the definition: %s" % (
             s["id"], s["sites"], json.dumps(s["build"])[:200], json.dumps(s["partition"]), json.dumps(brief)[:300]), s, cls="spectrum")
         pos += v.matched + 1
+    import cplxtier
+    cplxtier.run(c, {"q": "c03", "scale": 16}, "SpectrumTrace", "C03", "eigen-system", 6 if not thorough else 60)
     c.rule = "catalogue + %d random Hermitian models (<= %d modes) x partitions; non-trivial = at least one block larger than 1x1" % (nrand, 6 if thorough else 4)
     c.trusted = ["TLC", "harness c03 (residuals computed against the prepared matrices that TLC compares with the exact ones)", "Eigen for the residual arithmetic"]
     c.assumptions = ["residual and orthonormality tolerance 1e-9 relative to max|H|", "real build"]
